@@ -939,7 +939,9 @@ def replace_zero(x, val):
 
 
 def array_from_args_gradmaker(argnum, ans, args, kwargs):
-    return lambda g: g[argnum - 2]
+    # with ndmin larger than the natural rank, np.array prepends axes of length one
+    natural_shape = anp.shape(ans)[anp.ndim(ans) - 1 - anp.ndim(args[2]) :]
+    return lambda g: anp.reshape(g, natural_shape)[argnum - 2]
 
 
 defvjp_argnum(anp.array_from_args, array_from_args_gradmaker)
